@@ -67,13 +67,31 @@ class InstAnalysis:
         self.body = self.facts.bodies[self.inst['def']]
         self.calls = self.facts.inst_calls[iid]
         self.pt = defaultdict(set)
+        # closure bodies: local 1 is the environment; capture k is root ('c', k)
+        self.is_closure = '{closure' in self.body.path.rsplit('::', 1)[-1]
         self._compute_pt()
 
     # ---------------------------------------------------------------- points-to
+    def _capture_loc(self, pl):
+        """closure environment access `_1.k` / `(*_1).k` [+ derefs/fields] -> {(('c', k), fields)}"""
+        proj = pl['p']
+        i = 0
+        if i < len(proj) and proj[i]['k'] == 'deref':
+            i += 1
+        if i < len(proj) and proj[i]['k'] == 'field':
+            k = proj[i]['n']
+            path = tuple(e['n'] for e in proj[i + 1:] if e['k'] == 'field')
+            return {(('c', k), path)}
+        return None
+
     def loc_of_place(self, pl):
         """abstract locations denoted by the memory place `pl`"""
         base = pl['l']
         proj = pl['p']
+        if self.is_closure and base == 1:
+            c = self._capture_loc(pl)
+            if c is not None:
+                return c
         derefs = [i for i, e in enumerate(proj) if e['k'] == 'deref']
         if not derefs:
             path = tuple(e['n'] for e in proj if e['k'] == 'field')
@@ -97,6 +115,10 @@ class InstAnalysis:
 
     def val_of_place(self, pl):
         """abstract locations a pointer value read from `pl` may point into"""
+        if self.is_closure and pl['l'] == 1:
+            c = self._capture_loc(pl)
+            if c is not None:
+                return c
         if not any(e['k'] == 'deref' for e in pl['p']):
             return set(self.pt[pl['l']])
         return self.loc_of_place(pl)
@@ -111,6 +133,8 @@ class InstAnalysis:
         body = self.body
         pt = self.pt
         for i in range(1, body.argc + 1):
+            if self.is_closure and i == 1:
+                continue
             if ty_carries_borrow(body.locals[i]):
                 pt[i].add((('p', i), ()))
         changed = True
@@ -163,8 +187,24 @@ class InstAnalysis:
             cs = self.eff.ret_pt(rec['callee'])
             if cs is not None:
                 return self.translate(t, cs)
-        for a in t['args']:
+        via = rec.get('via', [])
+        via_defs = {self.facts.inst[v]['def'] for v in via}
+        for a, ty in zip(t['args'], t['arg_tys']):
+            if ty.get('closure') in via_defs:
+                continue    # consumed closure: only what it *returns* can flow into the result
             out |= self.val_of_operand(a)
+        for v in via:
+            cs = self.eff.ret_pt(v)
+            if not cs:
+                continue
+            cops = self.closure_ops(t, self.facts.inst[v]['def'])
+            for (root, path) in cs:
+                if root[0] == 'c' and cops is not None and root[1].isdigit() and int(root[1]) < len(cops):
+                    for (r2, p2) in self.val_of_operand(cops[int(root[1])]):
+                        out.add((r2, p2 + path))
+                else:
+                    for a in t['args']:
+                        out |= self.val_of_operand(a)
         return out
 
     # ---------------------------------------------------------------- events
@@ -196,11 +236,57 @@ class InstAnalysis:
         cache[key] = (args, tys)
         return cache[key]
 
+    def closure_ops(self, t, cdef=None):
+        """operands captured by the closure passed to / called by terminator t (from the closure
+        aggregate that builds it in this body)"""
+        from facts import resolve_ref, value_def
+        for a in t['args']:
+            l = op_local(a)
+            if l is None:
+                continue
+            ty = self.body.locals[l]
+            cand = [l]
+            pl = resolve_ref(self.body, l)
+            if pl is not None and not pl['p']:
+                cand.append(pl['l'])
+            for c in cand:
+                if self.body.locals[c].get('closure') is None and 'closure@' not in self.body.locals[c]['s']:
+                    continue
+                if cdef is not None and self.body.locals[c].get('closure') != cdef:
+                    continue
+                vd = value_def(self.body, c)
+                if vd and vd[0] == 'assign' and vd[1]['rv']['k'] == 'aggr' and vd[1]['rv']['ak'] == 'closure':
+                    return vd[1]['rv']['ops']
+        return None
+
     def translate(self, t, locs, truncate_non_ref=True):
         """callee-relative AbsLocs (rooted at callee params) -> caller AbsLocs"""
         out = set()
         args, tys = self.eff_args(t)
+        cops = None
         for (root, path) in locs:
+            if root[0] == 'c':
+                if cops is None:
+                    cops = self.closure_ops(t)
+                try:
+                    k = int(root[1])
+                except ValueError:
+                    continue
+                if cops is not None and k < len(cops):
+                    for (r2, p2) in self.val_of_operand(cops[k]):
+                        out.add((r2, p2 + path))
+                else:
+                    # the closure was built elsewhere (it is a parameter here): whatever the closure
+                    # value itself carries -- for a direct Fn*::call* that is argument 0
+                    c0 = callee_of(t)
+                    if c0 and c0.get('trait') in ('std::ops::FnOnce', 'std::ops::FnMut', 'std::ops::Fn') and args:
+                        for (r2, p2) in self.val_of_operand(args[0]):
+                            out.add((r2, p2))
+                    else:
+                        for a in args:
+                            for (r2, p2) in self.val_of_operand(a):
+                                out.add((r2, p2))
+                continue
             if root[0] != 'p':
                 continue
             j = root[1] - 1
@@ -303,7 +389,10 @@ class InstAnalysis:
             res['writes'] = self.val_of_operand(args[0])
             res['takes'] = self.val_of_operand(args[1])
             return res
+        via_defs = {self.facts.inst[v]['def'] for v in rec.get('via', [])}
         for a, ty in zip(args, tys):
+            if ty.get('closure') in via_defs:
+                continue    # a closure the callee runs: handled through its own summary below
             locs = self.val_of_operand(a)
             if not locs:
                 continue
@@ -312,20 +401,30 @@ class InstAnalysis:
             else:
                 res['reads'] |= locs
         # closures handed to an extern function run inside it
+        res['via'] = list(rec.get('via', []))
+        res['direct_writes'] = set(res['writes'])
+        res['direct_reads'] = set(res['reads'])
         for v in rec.get('via', []):
             w = self.eff.W(v)
             r = self.eff.R(v)
-            # captured environment = callee param 1; other params come from the extern caller's
-            # own arguments (already counted above)
-            envlocs = set()
-            for a in args:
-                envlocs |= self.val_of_operand(a)
-            for (root, path) in w:
-                if root == ('p', 1):
-                    res['writes'] |= {(r2, p2) for (r2, p2) in envlocs}
-            for (root, path) in r:
-                if root == ('p', 1):
-                    res['reads'] |= {(r2, p2) for (r2, p2) in envlocs}
+            # captures are translated through the closure's construction site; the closure's own
+            # parameters come from the extern function's arguments (already counted above)
+            vdef = self.facts.inst[v]['def']
+            cops = self.closure_ops(t, vdef)
+            for (src, dst) in ((w, 'writes'), (r, 'reads')):
+                for (root, path) in src:
+                    if root[0] != 'c':
+                        continue
+                    try:
+                        k = int(root[1])
+                    except ValueError:
+                        continue
+                    if cops is not None and k < len(cops):
+                        for (r2, p2) in self.val_of_operand(cops[k]):
+                            res[dst].add((r2, p2 + path))
+                    else:
+                        for a in args:
+                            res[dst] |= self.val_of_operand(a)
         return res
 
 
@@ -357,7 +456,7 @@ class Effects:
         a = self.ia(iid)
         if a is None:
             return set()
-        out = {(root, path) for (root, path) in a.pt[0] if root[0] == 'p'}
+        out = {(root, path) for (root, path) in a.pt[0] if root[0] in ('p', 'c')}
         self._retpt[iid] = out
         return out
 
@@ -392,8 +491,8 @@ class Effects:
                     else:
                         W |= ce['writes'] | ce['kills'] | ce['takes']
                         R |= ce['reads'] | ce['takes']
-        self._W[iid] = {l for l in W if l[0][0] == 'p'}
-        self._R[iid] = {l for l in R if l[0][0] == 'p'}
+        self._W[iid] = {l for l in W if l[0][0] in ('p', 'c')}
+        self._R[iid] = {l for l in R if l[0][0] in ('p', 'c')}
 
     def W(self, iid):
         self._wr(iid)
@@ -664,7 +763,7 @@ class EAFlow:
             if rk in ('err', 'maybe'):
                 may_err = True
                 for l in dirty:
-                    if l[0][0] == 'p':
+                    if l[0][0] in ('p', 'c'):
                         errw[l] = self.origin.get(l)
         return (errw, may_err)
 
@@ -759,8 +858,33 @@ class KBU:
                     else:
                         hits_k = any(under(loc, l) for l in ce['kills'])
                         hits_t = any(covers(l, loc) for l in ce['takes'])
-                        hits_w = any(covers(l, loc) for l in ce['writes'])
-                        hits_r = any(covers(l, loc) for l in ce['reads'])
+                        hits_w = any(covers(l, loc) for l in ce.get('direct_writes', ce['writes']))
+                        hits_r = any(covers(l, loc) for l in ce.get('direct_reads', ce['reads']))
+                        # closures the extern function may run: apply their own kill-before-use summary
+                        for v in ce.get('via', []):
+                            vdef = eff.facts.inst[v]['def']
+                            cops = a.closure_ops(t, vdef)
+                            for cl in (eff.W(v) | eff.R(v)):
+                                if cl[0][0] != 'c':
+                                    continue
+                                try:
+                                    kk = int(cl[0][1])
+                                except ValueError:
+                                    continue
+                                tls = set()
+                                if cops is not None and kk < len(cops):
+                                    for (r2, p2) in a.val_of_operand(cops[kk]):
+                                        tls.add((r2, p2 + cl[1]))
+                                if any(covers(tl, loc) for tl in tls):
+                                    cv, _cexit = self.summary(v, cl)
+                                    if st == 'U':
+                                        for vv in cv:
+                                            k = (b, vv['fn'], vv['loc'], vv['what'])
+                                            if k not in seen_v:
+                                                seen_v.add(k)
+                                                v2 = dict(vv)
+                                                v2['via'] = [body.path + ' ' + loc_of(t['sp'])] + vv.get('via', [])
+                                                viols.append(v2)
                         if hits_k:
                             st = 'K'
                         elif hits_t:
